@@ -70,7 +70,14 @@ def variants(base):
                     # ... next to its sanitised form in the last one, listed after it and in front of it
                     d["insts"] = d["insts"] + [{"name": "k_n", "ref": ref}, {"name": "m_n", "ref": ref}]
                 d["insts"] = d["insts"] + [{"name": "m.n", "ref": ref}]
+            if d.get("insts"):
+                # three siblings that sanitise alike and differ in letter case: the suffixed candidate of the third
+                # collides with the suffixed identifier the second was given
+                ref = d["insts"][0]["ref"]
+                d["insts"] = d["insts"] + [{"name": "g/1", "ref": ref}, {"name": "g_1", "ref": ref}, {"name": "G_1", "ref": ref},
+                                           {"name": "h_sdn_1_", "ref": ref}, {"name": "keep", "ref": ref}, {"name": "h", "ref": ref}, {"name": "H", "ref": ref}]
             if d.get("nets") is not None and d.get("insts"):
+                d["nets"] = d["nets"] + [{"name": "t/1", "bits": [[]]}, {"name": "t_1", "bits": [[]]}, {"name": "T_1", "bits": [[]]}]
                 d["nets"] = d["nets"] + [{"name": "n$1", "bits": [[]]}, {"name": "n#1", "bits": [[]]},
                                          {"name": "Bus.x", "bits": [[]]}, {"name": "bus:x", "bits": [[]]}]
         lib["defs"] = lib["defs"] + [{"name": "c-1", "ports": [], "insts": [], "nets": []}, {"name": "c+1", "ports": [], "insts": [], "nets": []}]
@@ -211,7 +218,11 @@ def worker(case):
         tag = "pipeline:%s:%s" % (base, transform)
     else:  # text from the independent writer, then parsed
         _, base, opts, order = case
-        n = c05.parse_text(edif_writer.render(fdesigns.BASES[base](), **opts))
+        opts = dict(opts)
+        ad0 = fdesigns.BASES[base]()
+        if opts.pop("dup_instances", False):
+            ad0 = fdesigns.dup_instances(ad0)[0]
+        n = c05.parse_text(edif_writer.render(ad0, **opts))
         tag = "reparsed:" + base
     if kind == "api" and case[2] == "edited-after-export":
         # a netlist that was exported once (identifiers assigned) is edited: new elements go in FRONT of the
